@@ -27,6 +27,13 @@ PROPS = {
                 "non-trivial = a criterion sample lies within one record length of a block boundary",
         "assumptions": ["criteria as defined by the code (DESIGN 7.1), dead time inclusive", "completeness only demanded where decidable from delivered data (DESIGN 7.2)"],
     },
+    "C08": {
+        "pkg": ".", "hdir": "dastard", "harness": DASTARD_COMMON + ["zz_verif_trig_test.go", "zz_verif_c08_test.go"], "test": "TestVerifC08",
+        "quick": T(16, 90), "thorough": T(16, 900),
+        "rule": "one execution = one (geometry, edge-multi configuration, edge set, block partition); differential oracle against the one-block run "
+                "of the same stream + ordering/extent rules + the C01 excerpt oracle; non-trivial = at least one record emitted and at least one cut",
+        "assumptions": ["unsigned streams (edge-multi ignores signedness)", "staircase streams with sub-threshold ripple; 1-3 edges"],
+    },
     "C18": {
         "pkg": "ringbuffer", "hdir": "ringbuffer", "harness": ["zz_verif_c18_test.go"], "test": "TestVerifC18",
         "quick": T(16, 60), "thorough": T(16, 600),
